@@ -275,7 +275,7 @@ def _extract_prints(out):
     i = 0
     while i < len(lines):
         ln = lines[i]
-        if ln.startswith('<<"'):
+        if ln.startswith('<<"') or ln.startswith('<< "'):
             buf = ln
             depth = buf.count('<<') - buf.count('>>')
             while depth > 0 and i + 1 < len(lines):
@@ -354,7 +354,7 @@ def write_trace(path, records):
         json.dump(records, f, separators=(',', ':'))
 
 
-def validate_trace(trace_spec, records, cfg=None, timeout=1800, extra_env=None, heap='6g', batch=None, parallel=8):
+def validate_trace(trace_spec, records, cfg=None, timeout=1800, extra_env=None, heap='6g', batch=None, parallel=8, groups=None):
     """Write records to scratch files, run TLC on the trace spec over them (in
     parallel batches) and return (verdicts, stats).  verdicts is a dict
     id -> sorted list of violated clause names (only for bad records);
@@ -362,8 +362,15 @@ def validate_trace(trace_spec, records, cfg=None, timeout=1800, extra_env=None, 
     from concurrent.futures import ThreadPoolExecutor
     if not records:
         return {}, {'records': 0, 'states': 0, 'transitions': 0, 'wall': 0.0, 'judged_ids': []}
-    batch = batch or max(1, (len(records) + parallel - 1) // parallel)
-    chunks = [records[i:i + batch] for i in range(0, len(records), batch)]
+    if groups is not None:
+        # groups: lists of records that must stay together (one trace each); pack them into <= parallel chunks
+        chunks = [[] for _ in range(min(parallel, max(1, len(groups))))]
+        for g in sorted(groups, key=len, reverse=True):
+            min(chunks, key=len).extend(g)
+        chunks = [c for c in chunks if c]
+    else:
+        batch = batch or max(1, (len(records) + parallel - 1) // parallel)
+        chunks = [records[i:i + batch] for i in range(0, len(records), batch)]
     tmpd = tempfile.mkdtemp(prefix='trace-', dir=SCRATCH_ROOT)
     cfg = cfg or (trace_spec + '.cfg')
 
@@ -389,6 +396,8 @@ def validate_trace(trace_spec, records, cfg=None, timeout=1800, extra_env=None, 
                 for p in r.prints:
                     if p and p[0] == 'BAD':
                         names = p[2]['__set__'] if isinstance(p[2], dict) else p[2]
+                        if not names:
+                            raise MachineryError('trace spec %s printed a BAD verdict with no clause for %s (verdict printing must use IF-THEN-ELSE, not a disjunction)' % (trace_spec, p[1]))
                         verdicts.setdefault(p[1], set()).update(names)
                     elif p and p[0] == 'OKC':
                         stats['clauses'] += p[1] if len(p) > 1 and isinstance(p[1], int) else 0
